@@ -85,6 +85,9 @@
 
 pub mod query;
 
+#[cfg(jsonpath_rust_verif)]
+pub mod verif;
+
 #[allow(clippy::module_inception)]
 pub mod parser;
 
